@@ -92,18 +92,42 @@ def rule_e(R, ctx, rid="C06.e"):
     Y = ctx.yrs
     fn = Y.fn("yrs::block_store::BlockStore::get_state_vector")
     v = FnView(fn)
-    R.rule(rid, "R-PROV skip-aware state vector: BlockStore::get_state_vector overrides, for every client with Skip ranges, the "
-                    "advertised clock by the start of the first skip (IdRanges::clock_start of BlockStore.skips) — a gap is never advertised as known")
+    R.rule(rid, "R-PROV+R-GUARD skip-aware state vector: BlockStore::get_state_vector overrides, for every client with recorded holes "
+                "(BlockStore.skips), the advertised clock by the START of the first hole — the value stored is exactly "
+                "clock_start() of that client's ranges (the element of skips.iter() of this round), the store is decided by nothing "
+                "but `the loop has an element` and `clock_start() is Some` (no test of the clock's value: a hole that starts at 0 "
+                "lowers the entry to 0 like any other), no entry is ever removed from the map, the base value of every client "
+                "is ClientBlockList::clock() and the map is what StateVector::new receives — a gap is never advertised as known")
     ins = [c for c in fn.calls_to("std::collections::HashMap::insert")]
     ok = False
     why = "no override found"
+    n = 0
     for cs in ins:
-        val = v.arg(cs, 2)
-        if term_has_call(val, "re:IdRanges<.*>::clock_start$", "re:::clock_start$") and term_has_field(val, "BlockStore.skips"):
-            g = v.guards(cs.bb)
-            ok = all(term_has_field(l.term, "BlockStore.skips") or term_has_call(l.term, "re:::clock_start$") for l in g)
-            why = "map.insert(client, %s) under %s" % (sshow(val, 6), [l.desc for l in g])
-    R.ob(rid, fn, "skip-override", ok, why)
+        val = simp_deep(v.arg(cs, 2))
+        if not term_has_field(val, "BlockStore.skips"):
+            continue
+        n += 1
+        top = val
+        while top[0] in ("field", "variant", "ref", "deref", "cast") and len(top) > 2 and isinstance(top[-1], tuple):
+            top = top[-1]
+        is_start = top[0] == "call" and re.search(r"::clock_start$", F.strip_generics(top[1])) is not None
+        rng_of_round = is_start and term_has_call(top, "re:Iterator>::next$") and term_has_call(top, "re:IdSet::iter$")
+        g = v.guards(cs.bb)
+        bad = []
+        for l in g:
+            t = simp(l.term)
+            if t[0] == "call" and l.polarity == "Some" and (re.search(r"Iterator>::next$", t[1]) or re.search(r"::clock_start$", F.strip_generics(t[1]))):
+                continue
+            bad.append(l.desc)
+        ok = is_start and rng_of_round and not bad
+        why = ("map.insert(client, %s) decided by loop element + clock_start() is Some only" % sshow(val, 5)) if ok else \
+              "the override stores %s (clock_start of this round's ranges: %s) and is narrowed by %s" % (sshow(val, 6), bool(rng_of_round), [b[:90] for b in bad][:3])
+    R.floor(rid, "override of the advertised clock from BlockStore.skips", n, 1)
+    R.ob(rid, fn, "skip-override", ok and n == 1, why if n == 1 else "%d overrides from BlockStore.skips (expected one)" % n)
+    rem = [c for c in fn.calls() if re.search(r"HashMap(<.*>)?::(remove|remove_entry|retain|clear|drain)$", F.strip_generics(c.name))]
+    R.ob(rid, fn, "no-removal", not rem, "no entry is removed from the advertised map" if not rem else
+         "an entry is removed from the advertised map (%s): a client with blocks behind a hole vanishes from the state vector and the "
+         "exporters, which iterate it, never write that client" % rem[0].loc())
     # base value: list.clock() for every client
     cl = Y.closures.get(fn.path, [])
     base = any(term_has_call(F.Terms(c).local(0, 10), "yrs::block_store::ClientBlockList::clock") for c in cl)
